@@ -169,14 +169,23 @@ def _stime(draw):
 @st.composite
 def ioapispecs(draw, routes=ROUTES, ftypes=(1, 1, 2), max_vars=4, max_n=6,
                min_steps=1, max_steps=8, min_lays=1, tsteps=TSTEPS,
-               cross_share=3, longvar_share=0):
+               cross_share=3, longvar_share=0, origin_types=False,
+               vglvls_kinds=False, short_years=0):
     """Strategy of IoapiSpec dicts.  cross_share: one case in `cross_share`
     (when nt >= 2) has its start time constructed so that the series crosses
     midnight of a weighted day (year end / leap day) inside the file; 0
     disables.  longvar_share: one case in `longvar_share` additionally holds
     a standard-dimension variable whose name has 17-24 characters (spec key
     'longvar'); the library accepts such a variable but cannot list it, so
-    it is not in the model's varnames; 0 (default) disables."""
+    it is not in the model's varnames; 0 (default) disables.
+    origin_types: XORIG/YORIG are additionally stored as Python int,
+    np.int32, np.int64 or np.float32 (spec keys xorig_t / yorig_t; integer
+    types get whole-number origins) and the cells as float32 (cell_t).
+    vglvls_kinds: the edges are handed to from_arrays as float32 array,
+    float64 array or list (vglvls_t) and half of the files use tenths (0.9,
+    0.7 ... not float32-representable) instead of multiples of 1/64.
+    short_years: one case in `short_years` starts on a date below 1400000
+    (YYDDD such as 19001, years before 1400, year 1); 0 disables."""
     ftype = draw(st.sampled_from(list(ftypes)))
     route = draw(st.sampled_from(list(routes)))
     nv = draw(st.integers(1, max_vars))
@@ -211,10 +220,37 @@ def ioapispecs(draw, routes=ROUTES, ftypes=(1, 1, 2), max_vars=4, max_n=6,
     inner = draw(st.lists(st.integers(1, 63), min_size=nz - 1,
                           max_size=nz - 1, unique=True))
     vglvls = [1.0] + [k / 64.0 for k in sorted(inner, reverse=True)] + [0.0]
+    extra = {}
+    if vglvls_kinds:
+        extra['vglvls_t'] = draw(st.sampled_from(['f4', 'f8', 'list']))
+        if draw(st.booleans()):
+            tenths = draw(st.lists(st.integers(1, 9), min_size=min(nz - 1, 9),
+                                   max_size=min(nz - 1, 9), unique=True))
+            if len(tenths) == nz - 1:
+                vglvls = [1.0] + [k / 10.0 for k in sorted(
+                    tenths, reverse=True)] + [0.0]
+    if origin_types:
+        kinds = ['f8', 'f8', 'int', 'i4', 'i8', 'f4']
+        extra['xorig_t'] = draw(st.sampled_from(kinds))
+        extra['yorig_t'] = draw(st.sampled_from(kinds))
+        extra['cell_t'] = draw(st.sampled_from(['f8', 'f8', 'f4']))
+        if extra['xorig_t'] in ('int', 'i4', 'i8'):
+            xorig = float(int(xorig) % 2 ** 20)
+        if extra['yorig_t'] in ('int', 'i4', 'i8'):
+            yorig = float(-(int(yorig) % 2 ** 20))
+        if extra['xorig_t'] == 'f4':
+            xorig = float(np.float32(xorig))
+        if extra['yorig_t'] == 'f4':
+            yorig = float(np.float32(yorig))
+    if short_years and draw(st.integers(1, short_years)) == 1 and \
+            not crossing:
+        yy = draw(st.sampled_from([19, 99, 1, 1200, 1399, 70]))
+        sdate = yy * 1000 + draw(st.sampled_from([1, 60, 365]))
     out = dict(ftype=ftype, route=route, vars=names, nt=nt, nz=nz, ny=ny,
                nx=nx, sdate=sdate, stime=stime, tstep=tstep, xorig=xorig,
                yorig=yorig, xcell=xcell, ycell=ycell, vglvls=vglvls,
                dmul=draw(st.integers(1, 5)), crossing=crossing)
+    out.update(extra)
     if longvar_share and draw(st.integers(1, longvar_share)) == 1:
         out['longvar'] = draw(st.sampled_from(LONG_NAMES))
         out['longpos'] = draw(st.integers(0, len(names)))
@@ -346,14 +382,29 @@ def griddesc_text(spec, gdnam='VFGRID'):
         "' '"])
 
 
+_NUMT = {'f8': float, 'int': int, 'i4': np.int32, 'i8': np.int64,
+         'f4': np.float32}
+
+
+def typed(spec, key):
+    """XORIG/YORIG/XCELL/YCELL of a spec in the type the spec asks for
+    (xorig_t / yorig_t / cell_t; default Python float)"""
+    t = spec.get(key + '_t') if key.endswith('orig') else spec.get('cell_t')
+    return _NUMT[t or 'f8'](spec[key])
+
+
 def _build_arrays(spec):
     from PseudoNetCDF.cmaqfiles._ioapi import ioapi_base
     arrays = dict((nm, data_of(spec, nm)) for nm in built_names(spec))
+    vt = spec.get('vglvls_t', 'f4')
+    if vt == 'list':
+        vg = [float(v) for v in spec['vglvls']]
+    else:
+        vg = np.array(spec['vglvls'], dtype=vt)
     fa = dict(SDATE=int(spec['sdate']), STIME=int(spec['stime']),
-              TSTEP=int(spec['tstep']), XORIG=float(spec['xorig']),
-              YORIG=float(spec['yorig']), XCELL=float(spec['xcell']),
-              YCELL=float(spec['ycell']),
-              VGLVLS=np.array(spec['vglvls'], dtype='f4'))
+              TSTEP=int(spec['tstep']), XORIG=typed(spec, 'xorig'),
+              YORIG=typed(spec, 'yorig'), XCELL=typed(spec, 'xcell'),
+              YCELL=typed(spec, 'ycell'), VGLVLS=vg)
     if spec['ftype'] == 2:
         fa['NCOLS'] = int(spec['nx'])
         fa['NROWS'] = int(spec['ny'])
@@ -378,6 +429,11 @@ def _build_griddesc(spec, withcf):
                  withcf=withcf)
     for nm in built_names(spec):
         f.variables[nm][...] = data_of(spec, nm)
+    for key, att in (('xorig', 'XORIG'), ('yorig', 'YORIG'),
+                     ('xcell', 'XCELL'), ('ycell', 'YCELL')):
+        if spec.get(key + '_t') or (key.endswith('cell') and
+                                    spec.get('cell_t')):
+            setattr(f, att, typed(spec, key))
     return f
 
 
@@ -405,7 +461,23 @@ ADDED_NAME = 'ADDED_LATER'
 
 
 @st.composite
-def preps(draw, spec=None):
+def preps(draw, spec=None, uneven=False):
+    """uneven=True adds sources with an uneven time axis (needs nt >= 3):
+    ['uneven-list', [i0, i1, ...]]  a prior sliceDimensions(TSTEP=<strictly
+                                    increasing, not evenly spaced list>)
+    ['uneven-gap', a, b]            steps [0:a] stacked with steps [b:nt],
+                                    b > a (two runs with a gap)
+    prep_time_index(spec, prep) gives the retained source step indices."""
+    if uneven and spec is not None and spec['nt'] >= 3 and \
+            draw(st.integers(0, 3)) == 0:
+        nt = spec['nt']
+        if draw(st.booleans()):
+            a = draw(st.integers(1, nt - 2))
+            b = draw(st.integers(a + 1, nt - 1))
+            return ['uneven-gap', a, b]
+        idx = sorted(draw(st.lists(st.integers(0, nt - 1), min_size=2,
+                                   max_size=nt - 1, unique=True)))
+        return ['uneven-list', idx]
     k = draw(st.integers(0, 7))
     if k <= 1:
         return 'synced'
@@ -432,9 +504,25 @@ def prep_kind(prep):
     return prep if isinstance(prep, str) else prep[0]
 
 
-def prepare(f, spec, prep):
-    """put an in-memory file into the source state `prep` (see above)"""
+def prep_time_index(spec, prep):
+    """indices of the spec's time steps that the prepared source holds"""
     kind = prep_kind(prep)
+    if kind == 'uneven-list':
+        return [int(i) for i in prep[1]]
+    if kind == 'uneven-gap':
+        return list(range(0, prep[1])) + list(range(prep[2], spec['nt']))
+    return list(range(spec['nt']))
+
+
+def prepare(f, spec, prep):
+    """put an in-memory file into the source state `prep` (see above);
+    returns the prepared file (a new object for the uneven states)"""
+    kind = prep_kind(prep)
+    if kind == 'uneven-list':
+        return f.sliceDimensions(TSTEP=[int(i) for i in prep[1]])
+    if kind == 'uneven-gap':
+        return f.sliceDimensions(TSTEP=slice(0, prep[1])).stack(
+            f.sliceDimensions(TSTEP=slice(prep[2], None)), 'TSTEP')
     if kind == 'synced':
         return f
     if kind == 'no-tflag':
